@@ -68,6 +68,9 @@ type Report struct {
 	start              time.Time
 	Deadline           time.Time
 	MachineryError     string
+	// CrashIsViolation: a scenario child process that dies (SIGSEGV, fatal error) is a violation of the
+	// property ("never crashes the process"), not a machinery error.
+	CrashIsViolation bool
 }
 
 func NewReport(prop, tier, level string, seed int64) *Report {
@@ -310,6 +313,13 @@ func (r *Report) RunScenarios(names []string, run func(r *Report, name string)) 
 			b, rerr := os.ReadFile(tmp.Name())
 			var cr Report
 			if rerr != nil || json.Unmarshal(b, &cr) != nil {
+				if r.CrashIsViolation && err != nil {
+					cr = Report{Exhaustive: false, Counters: map[string]int{}}
+					cr.Viols = append(cr.Viols, Viol{Property: r.Property, Harness: n, Sig: "process-crash@" + n,
+						Msg: fmt.Sprintf("the process running scenario %s died (%v):\n%s", n, err, firstLines(string(out), 30))})
+					results[i] = &cr
+					return
+				}
 				errs[i] = fmt.Sprintf("scenario %s: child failed (%v): %s", n, err, firstLines(string(out), 12))
 				return
 			}
